@@ -48,6 +48,8 @@ type Report struct {
 	Known     []KnownFinding
 	analysed  map[string]bool
 	CallSites int
+	Config    string // non-default build configuration being analysed ("" = default)
+	Configs   []string
 }
 
 type KnownFinding struct {
@@ -93,6 +95,9 @@ func (r *Report) add(st Status, construct string, pos token.Pos, msg string) {
 				msg = k.What + " :: " + msg
 			}
 		}
+	}
+	if r.Config != "" {
+		construct += "@" + r.Config
 	}
 	r.cur.Count++
 	r.Instances = append(r.Instances, Instance{Rule: r.cur.ID, Construct: construct, Pos: p, Status: st, Msg: msg})
@@ -198,6 +203,7 @@ func (r *Report) Finish(verifDir string, wall float64, seed int, loadInfo map[st
 			"functions_analysed": fa,
 			"call_sites_examined": r.CallSites,
 			"load":        loadInfo,
+			"build_configurations": append([]string{"default (linux/amd64, no tags)"}, r.Configs...),
 			"checker_cmd": fmt.Sprintf("bin/gunyucheck -property %s -tier %s", r.Property, r.Tier),
 			"trusted_base": []string{"go/packages", "go/types", "go/ssa", "x/tools v0.29.0 callgraph (cha+vta)", "protocol constants embedded in the checker"},
 		},
